@@ -1,6 +1,8 @@
 package metrics
 
 import (
+	"strings"
+
 	gkm "github.com/go-kit/kit/metrics"
 	prommetrics "github.com/go-kit/kit/metrics/prometheus"
 	promclient "github.com/prometheus/client_golang/prometheus"
@@ -28,13 +30,13 @@ func NewPromProvider(namespace, subsystem string, buckets []float64) Provider {
 func (p *PromProvider) NewCounter(name string, labels ...string) gkm.Counter {
 	copts := promclient.CounterOpts(p.Opts)
 	copts.Name = clean(name)
-	return prommetrics.NewCounterFrom(copts, labels)
+	return promCounter{prommetrics.NewCounterFrom(copts, labels)}
 }
 
 func (p *PromProvider) NewGauge(name string, labels ...string) gkm.Gauge {
 	gopts := promclient.GaugeOpts(p.Opts)
 	gopts.Name = clean(name)
-	return prommetrics.NewGaugeFrom(gopts, labels)
+	return promGauge{prommetrics.NewGaugeFrom(gopts, labels)}
 }
 
 func (p *PromProvider) NewHistogram(name string, labels ...string) gkm.Histogram {
@@ -46,5 +48,35 @@ func (p *PromProvider) NewHistogram(name string, labels ...string) gkm.Histogram
 		ConstLabels: p.Opts.ConstLabels,
 		Buckets:     p.Buckets,
 	}
-	return prommetrics.NewHistogramFrom(hopts, labels)
+	return promHistogram{prommetrics.NewHistogramFrom(hopts, labels)}
+}
+
+// Prometheus panics when a label value is not valid UTF-8 and it does so
+// when the metric is used and not when the label values are set. Label values
+// come from the routing table (service, host, path, target) and must never
+// bring the proxy down: invalid bytes are replaced.
+func validLabelValues(labelValues []string) []string {
+	lvs := make([]string, len(labelValues))
+	for i, v := range labelValues {
+		lvs[i] = strings.ToValidUTF8(v, "\uFFFD")
+	}
+	return lvs
+}
+
+type promCounter struct{ gkm.Counter }
+
+func (c promCounter) With(labelValues ...string) gkm.Counter {
+	return promCounter{c.Counter.With(validLabelValues(labelValues)...)}
+}
+
+type promGauge struct{ gkm.Gauge }
+
+func (g promGauge) With(labelValues ...string) gkm.Gauge {
+	return promGauge{g.Gauge.With(validLabelValues(labelValues)...)}
+}
+
+type promHistogram struct{ gkm.Histogram }
+
+func (h promHistogram) With(labelValues ...string) gkm.Histogram {
+	return promHistogram{h.Histogram.With(validLabelValues(labelValues)...)}
 }
